@@ -12,4 +12,10 @@ pub assume_specification<'a, T: Copy> [std::option::Option::<&T>::copied] (o: st
 #[verifier::external_body]
 pub struct ExIoError(std::io::Error);
 
-pub assume_specification<T> [core::mem::drop::<T>] (x: T);
+pub assume_specification<T> [::core::mem::drop::<T>] (x: T);
+
+// vstd specifies ToString::to_string through `to_string_from_display_ensures` and gives its meaning for `str` only;
+// for String the result is the string itself (ASSUMED)
+pub broadcast axiom fn axiom_to_string_string(s: &String, r: String)
+    ensures #[trigger] vstd::string::to_string_from_display_ensures::<String>(s, r) ==> r@ == s@;
+pub broadcast group group_shown { axiom_to_string_string }
